@@ -2,6 +2,7 @@ package main
 
 import (
 	"encoding/json"
+	"fmt"
 	"math/rand"
 )
 
@@ -21,7 +22,7 @@ func (p c09Prop) RunFn() string { return "run_C09" }
 func (p c09Prop) Workers() int  { return 24 }
 func (p c09Prop) Journal() bool { return true }
 func (p c09Prop) Rule() string {
-	return p.r.rule + " PLUS connection histories against the scripted server: stream management enabled with resume granted / refused / absent, 0-8 stanzas of traffic with <r/> after every third, then 0-3 resumptions each with more traffic: every <a h/> and every <resume h/> is compared with the number of stanzas the SERVER sent on the session"
+	return p.r.rule + " PLUS connection histories against the scripted server: stream management enabled with resume granted / refused / absent, 0-8 stanzas of traffic with <r/> after every third, then 0-3 resumptions each with more traffic: every <a h/> and every <resume h/> is compared with the number of stanzas the SERVER sent on the session; fixed family: <enabled/> WITHOUT an id (resume absent / false / true / not a boolean; XEP-0198: the id is only there for resumable sessions), traffic, a later stream enabled again without and then with an id, a resumption; a second reading of the wire alone (c09WireOracle: script + answers + <resume h/>, nothing of what the client holds) judges every answer of every session the script enabled or resumed, with or without id"
 }
 func (p c09Prop) Gen(r *rand.Rand, tier string) []interface{} {
 	var out []interface{}
@@ -31,6 +32,10 @@ func (p c09Prop) Gen(r *rand.Rand, tier string) []interface{} {
 	}
 	for _, x := range genC09sess(r, tier) {
 		v := x.(sessIn)
+		out = append(out, c09Case{Sess: &v})
+	}
+	for _, v := range genC09noID(r, tier) {
+		v := v
 		out = append(out, c09Case{Sess: &v})
 	}
 	return out
@@ -69,7 +74,10 @@ func (p c09Prop) Oracle(in interface{}, obs Sx) (string, string) {
 	if c.Recv != nil {
 		return p.r.Oracle(*c.Recv, obs)
 	}
-	return p.s.Oracle(*c.Sess, obs)
+	if msg, cls := p.s.Oracle(*c.Sess, obs); msg != "" {
+		return msg, cls
+	}
+	return c09WireOracle(*c.Sess, obs)
 }
 func (p c09Prop) Key(in interface{}) (string, bool) {
 	c := in.(c09Case)
@@ -115,4 +123,108 @@ func genC09(r *rand.Rand, tier string) []interface{} {
 		out = append(out, in)
 	}
 	return out
+}
+
+// genC09noID: stream management enabled by an <enabled/> that carries NO id (XEP-0198: the id is optional, it
+// serves resumption only; also with resume='false' / 'true' / not a boolean): acknowledgements are in force on
+// such a session all the same, every <r/> must be answered with the number of stanzas received. The client
+// holds no id afterwards, so the next stream is bound and enabled anew (counting from zero), first again without
+// an id, then with one, then resumed: the count reported must be right on every one of them.
+func genC09noID(r *rand.Rand, tier string) []sessIn {
+	var out []sessIn
+	mk := func(wish bool, res string, sess int, t [5]int, tag string) sessIn {
+		in := sessIn{Insecure: true, SMEnable: true, SMResume: wish, Tag: tag}
+		id := "ni-" + res
+		g0, _ := goodConn(in, shape{smOffer: true, sess: sess}, "", "", "", res)
+		g1, _ := goodConn(in, shape{smOffer: true}, "", "", "", res)
+		g2, _ := goodConn(in, shape{smOffer: true}, "", "", id, "true")
+		g3, _ := goodConn(in, shape{smOffer: true}, id, "resumed", "unused", "true")
+		in.Conns = []sessConn{{Groups: g0, Traffic: t[0]}, {Groups: g1, Traffic: t[1]}, {Groups: g2, Traffic: t[2]}, {Groups: g3, Traffic: t[3]}, {Groups: g3, Traffic: t[4]}}
+		return in
+	}
+	for _, res := range []string{"", "false", "true", "maybe"} {
+		for _, wish := range []bool{true, false} {
+			out = append(out, mk(wish, res, 0, [5]int{5, 4, 3, 2, 0}, "c09-noid"))
+		}
+	}
+	// a session with an id first, then (resumption refused) one enabled without id
+	for _, res := range []string{"", "false"} {
+		in := sessIn{Insecure: true, SMEnable: true, SMResume: true, Tag: "c09-noid"}
+		g0, _ := goodConn(in, shape{smOffer: true}, "", "", "wi-1", "true")
+		g1, _ := goodConn(in, shape{smOffer: true}, "wi-1", "failed", "", res)
+		g2, _ := goodConn(in, shape{smOffer: true}, "", "", "", res)
+		in.Conns = []sessConn{{Groups: g0, Traffic: 4}, {Groups: g1, Traffic: 7}, {Groups: g2, Traffic: 1}}
+		out = append(out, in)
+	}
+	n := 12
+	if tier == "thorough" {
+		n = 300
+	}
+	for i := 0; i < n; i++ {
+		res := []string{"", "false", "true", "maybe", "0", "1"}[r.Intn(6)]
+		out = append(out, mk(r.Intn(3) > 0, res, r.Intn(2), [5]int{r.Intn(9), r.Intn(9), r.Intn(7), r.Intn(7), r.Intn(4)}, "c09-noid-rand"))
+	}
+	return out
+}
+
+// c09WireOracle: the property read on the wire alone, for the scenarios in which every connection's script
+// completes (goodConn scripts; anything else is left to the session oracle): a connection whose script ends in
+// <enabled/> - with or without id, resumption granted or not - starts a stream-managed session with zero stanzas
+// received; one whose script ends in <resumed/> continues the session of the connection before; on both, the
+// i-th <a h/> must report the number of stanzas the server had sent on the session before the i-th <r/>, and a
+// <resume h/> the number sent on the session so far. Nothing of the client's own state is consulted.
+func c09WireOracle(in sessIn, obs Sx) (string, string) {
+	if obs.K != "l" || len(obs.L) != len(in.Conns) {
+		return "", ""
+	}
+	managed, sent := false, int64(0)
+	for ci, co := range obs.L {
+		c := in.Conns[ci]
+		if co.K != "l" || len(co.L) < 4 || len(co.L[1].L) == 0 {
+			return "", ""
+		}
+		if c.NoDial || co.L[1].L[0].Z != 0 {
+			continue // an attempt that failed: nothing was received on it (what is held across it: session oracle)
+		}
+		last := sItem{}
+		for _, g := range c.Groups {
+			for _, it := range g {
+				if it.T != "wait" {
+					last = it
+				}
+			}
+		}
+		for _, rq := range co.L[0].L {
+			if len(rq.L) > 0 && len(rq.L[0].L) >= 3 && rq.L[0].L[0].Z == 3 && managed && rq.L[0].L[2].Z != sent {
+				return fmt.Sprintf("conn %d: <resume h=%d/>, the server had sent %d stanzas on the stream-managed session", ci, rq.L[0].L[2].Z, sent), "wire-resume-h"
+			}
+		}
+		switch last.T {
+		case "enabled":
+			managed, sent = true, 0
+		case "resumed":
+			if !managed {
+				return "", ""
+			}
+		default:
+			managed, sent = false, 0
+			continue
+		}
+		got := co.L[3].L
+		k := 0
+		for i := 0; i < c.Traffic; i++ {
+			if i%3 != 0 {
+				continue
+			}
+			if k >= len(got) {
+				return fmt.Sprintf("conn %d: acknowledgement request %d (after %d stanzas of the session) was not answered", ci, k, sent+int64(i)+1), "wire-answer-missing"
+			}
+			if got[k].Z != sent+int64(i)+1 {
+				return fmt.Sprintf("conn %d: answer %d reports h=%d, the server had sent %d stanzas on the stream-managed session (its <enabled/> carried an id: %v)", ci, k, got[k].Z, sent+int64(i)+1, enabledIDOf(c) != "" || last.T == "resumed"), "wire-answer-h"
+			}
+			k++
+		}
+		sent += int64(c.Traffic)
+	}
+	return "", ""
 }
